@@ -574,7 +574,22 @@ theorem parseMantissaLoop_spec (maxDigits : Nat) (ds : Bytes) (counter value i r
           rw [hv, Nat.pow_succ, Nat.pow_succ]; ring
         · rw [e2]; simp only [List.length_cons]; omega
 
-theorem parseMantissa_eq (c : FC) (hmax : 2 ≤ c.maxDigits) (integer fraction : Bytes) :
+theorem any_nonzero_of_pos (l : Bytes) (h : 0 < natOfDigits l) : l.any (· != 0x30) = true := by
+  by_contra hc
+  have hall : l.all (· == 0x30) = true := by
+    rw [List.all_eq_true]
+    intro x hx
+    have : ¬ (l.any (· != 0x30) = true) := hc
+    rw [List.any_eq_true] at this
+    by_contra hne
+    exact this ⟨x, hx, by simpa using hne⟩
+  have := natOfDigits_all_zero l hall
+  omega
+
+/-- (after the repair of C07-zero-tail the sticky `1` is added only when a dropped digit is non-zero; `hnz` says so) -/
+theorem parseMantissa_eq (c : FC) (hmax : 2 ≤ c.maxDigits) (integer fraction : Bytes)
+    (hnz : c.maxDigits - 1 < (integer ++ fraction).length →
+      0 < natOfDigits ((integer ++ fraction).drop (c.maxDigits - 1))) :
     parseMantissa c integer fraction =
       if c.maxDigits - 1 < (integer ++ fraction).length then
         natOfDigits ((integer ++ fraction).take (c.maxDigits - 1)) * 10 + 1
@@ -600,6 +615,9 @@ theorem parseMantissa_eq (c : FC) (hmax : 2 ≤ c.maxDigits) (integer fraction :
   rw [hres, e2, ← List.length_append]
   by_cases hlt : c.maxDigits - 1 < (integer ++ fraction).length
   · rw [if_pos hlt, if_pos (by omega)]
+    have hmin : min (integer ++ fraction).length (c.maxDigits - 1) = c.maxDigits - 1 := by omega
+    rw [hmin, any_nonzero_of_pos _ (hnz hlt)]
+    rfl
   · rw [if_neg hlt, if_neg (by omega), List.take_of_length_le (by omega)]
 
 /-! ## the digit-count argument behind `MAX_DIGITS` -/
@@ -1044,7 +1062,7 @@ theorem bhcomp_eq {c : FC} {F : Fmt} (h : FCok c F) (integer fraction : Bytes) (
       unfold scientificExponent intoI32
       simp only [beq_self_eq_true, if_true]
       rw [if_neg (by omega), satI32_id' (exponent - (start : Int)) (by omega) (by omega), satI32_id' _ (by omega) (by omega)]
-    rw [hsci, parseMantissa_eq c (by have := h.maxd; omega) [] sig]
+    rw [hsci, parseMantissa_eq c (by have := h.maxd; omega) [] sig (by simpa using hz)]
     simp only [List.nil_append]
     have hcount : fraction.length - start = sig.length := hsiglen.symm
     rw [hcount]
@@ -1072,7 +1090,7 @@ theorem bhcomp_eq {c : FC} {F : Fmt} (h : FCok c F) (integer fraction : Bytes) (
       simp only [Bool.false_eq_true, if_false]
       rw [if_neg (by omega), satI32_id' _ (by omega) (by omega)]
       omega
-    rw [hsci, parseMantissa_eq c (by have := h.maxd; omega) integer fraction, ← List.length_append]
+    rw [hsci, parseMantissa_eq c (by have := h.maxd; omega) integer fraction hz, ← List.length_append]
     have hsc : exponent + (integer.length : Int) - 1 + 1 - ((min c.maxDigits (integer ++ fraction).length : Nat) : Int) =
         (exponent - fraction.length) + ((integer ++ fraction).length : Int) - ((min c.maxDigits (integer ++ fraction).length : Nat) : Int) := by
       rw [List.length_append]; push_cast; omega
